@@ -132,7 +132,7 @@ func safeHandle(rt Target, method, text string, h http.Handler) (err error, pv a
 	return rt.Handle(method, text, h), nil
 }
 
-func safeServe(rt Target, w http.ResponseWriter, r *http.Request) (pv any) {
+func safeServe(rt http.Handler, w http.ResponseWriter, r *http.Request) (pv any) {
 	defer func() { pv = recover() }()
 	rt.ServeHTTP(w, r)
 	return nil
@@ -203,8 +203,23 @@ func RunCase(c kit.Case, reqs []Req, pfx string, customNotFound bool, mk func(no
 			return v // binding stops at the first rejected route: nothing further is promised
 		}
 	}
+	return checkRequests(v, pfx, rt, reqs, tc["res"], len(regs), table, o, customNotFound,
+		func(reg int) int { return reg }, func(id int) string { return table[id-1] })
+}
+
+// checkRequests sends every request of the universe and compares the answer with the
+// specification's. o.ran holds the ids the handlers recorded; owner maps a registration (1-based
+// index into regs) to the id its handler records and name describes an id (in RunCase both are
+// the registration itself; in the mount driver an id is a slice element shared by several
+// registrations).
+func checkRequests(v kit.Verdict, pfx string, rt http.Handler, reqs []Req, res any,
+	nregs int, table []string, o *obs, customNotFound bool, owner func(reg int) int, name func(id int) string) kit.Verdict {
+	fail := func(step int, key, msg string) kit.Verdict {
+		v.OK, v.Step, v.Key, v.Msg = false, step, pfx+key, msg
+		return v
+	}
 	want := map[int]map[string]any{}
-	for _, e := range kit.List(tc["res"]) {
+	for _, e := range kit.List(res) {
 		r := e.(map[string]any)
 		want[kit.Num(r["i"])] = r
 	}
@@ -214,7 +229,7 @@ func RunCase(c kit.Case, reqs []Req, pfx string, customNotFound bool, mk func(no
 		rec := httptest.NewRecorder()
 		pv := safeServe(rt, rec, req)
 		v.Steps++
-		step := len(regs) + i
+		step := nregs + i
 		where := fmt.Sprintf("table %v, request %s %q", table, rq.Method, rq.Path)
 		if pv != nil {
 			return fail(step, "panic:serve", fmt.Sprintf("%s: ServeHTTP panicked: %v", where, pv))
@@ -232,8 +247,11 @@ func RunCase(c kit.Case, reqs []Req, pfx string, customNotFound bool, mk func(no
 			for _, ce := range kit.List(w["c"]) {
 				cm := ce.(map[string]any)
 				cands = append(cands, table[kit.Num(cm["r"])-1])
-				if len(o.ran) == 1 && kit.Num(cm["r"]) == o.ran[0] {
-					match = cm
+				if len(o.ran) == 1 && owner(kit.Num(cm["r"])) == o.ran[0] {
+					// several registrations may share the handler: prefer the one whose binding was seen
+					if match == nil || varsText(o.vars[0]) == wantVars(cm["b"]) {
+						match = cm
+					}
 				}
 				if len(kit.List(cm["b"])) > 0 {
 					allLit = false
@@ -250,11 +268,11 @@ func RunCase(c kit.Case, reqs []Req, pfx string, customNotFound bool, mk func(no
 				if allLit {
 					key = "dispatch:literal-lost"
 				}
-				return fail(step, key, fmt.Sprintf("%s: handler of %q ran; the specification allows only %v", where, table[o.ran[0]-1], cands))
+				return fail(step, key, fmt.Sprintf("%s: handler of %q ran; the specification allows only %v", where, name(o.ran[0]), cands))
 			}
 			if g, e := varsText(o.vars[0]), wantVars(match["b"]); g != e {
 				return fail(step, "dispatch:binding",
-					fmt.Sprintf("%s: handler of %q saw path variables %s; the specification binds %s", where, table[o.ran[0]-1], g, e))
+					fmt.Sprintf("%s: handler of %q saw path variables %s; the specification binds %s", where, name(o.ran[0]), g, e))
 			}
 			if rec.Code != http.StatusOK {
 				return fail(step, "dispatch:status", fmt.Sprintf("%s: status %d after the handler wrote 200", where, rec.Code))
@@ -266,7 +284,7 @@ func RunCase(c kit.Case, reqs []Req, pfx string, customNotFound bool, mk func(no
 			}
 			if len(o.ran) > 0 {
 				return fail(step, "dispatch:spurious-handler",
-					fmt.Sprintf("%s: handler of %q ran; the specification answers 405 Allow=%s", where, table[o.ran[0]-1], setText(allow)))
+					fmt.Sprintf("%s: handler of %q ran; the specification answers 405 Allow=%s", where, name(o.ran[0]), setText(allow)))
 			}
 			if rec.Code != http.StatusMethodNotAllowed {
 				return fail(step, fmt.Sprintf("405:status:got-%d", rec.Code),
@@ -286,7 +304,7 @@ func RunCase(c kit.Case, reqs []Req, pfx string, customNotFound bool, mk func(no
 		case "n":
 			if len(o.ran) > 0 {
 				return fail(step, "dispatch:spurious-handler",
-					fmt.Sprintf("%s: handler of %q ran (vars %s); the specification answers 404", where, table[o.ran[0]-1], varsText(o.vars[0])))
+					fmt.Sprintf("%s: handler of %q ran (vars %s); the specification answers 404", where, name(o.ran[0]), varsText(o.vars[0])))
 			}
 			if rec.Code != http.StatusNotFound {
 				return fail(step, fmt.Sprintf("404:status:got-%d", rec.Code),
@@ -297,7 +315,7 @@ func RunCase(c kit.Case, reqs []Req, pfx string, customNotFound bool, mk func(no
 					fmt.Sprintf("%s: the not-found handler ran %d times", where, o.notFound))
 			}
 		default:
-			return kit.Verdict{Case: c.Index, Infra: true, Msg: "unknown result kind " + kind}
+			return kit.Verdict{Case: v.Case, Infra: true, Msg: "unknown result kind " + kind}
 		}
 	}
 	return v
@@ -368,6 +386,248 @@ func Drive(pfx string, every int, mk func(notFound http.Handler) (Target, error)
 			rep.Count("custom_notfound", 1)
 		}
 		rep.Put(RunCase(c, reqs, pfx, custom, mk))
+	})
+	if err != nil {
+		rep.Put(kit.Verdict{Infra: true, Msg: err.Error()})
+	}
+}
+
+// ---------------------------------------------------------------------------------------------
+// Server-level wiring (spec/RouterMount.tla, cases of spec/RouterMountGen.tla).
+//
+// A case holds the caller's slices, a mount program and the registrations the program stands for
+// (regs, each owned by a slice element) with the predicted answers. The World keeps the slices
+// as real []Route values for the whole case; the program is executed on `rounds` fresh servers
+// one after the other with those same values.
+
+// RouteSpec is one element of a caller's slice.
+type RouteSpec struct {
+	Method  string
+	Path    string
+	Handler http.HandlerFunc
+}
+
+// World is the application side of the server under test.
+type World interface {
+	// MakeSlice builds the caller's next []Route value; it lives as long as the World.
+	MakeSlice(routes []RouteSpec)
+	// NewServer replaces the current server by a fresh one.
+	NewServer(notFound http.Handler) error
+	// AddRoutes mounts slice s (0-based) with one WithPrefix option per group, in order.
+	AddRoutes(s int, groups []string)
+	// AddRoute mounts element j (0-based) of slice s the same way.
+	AddRoute(s, j int, groups []string)
+	// Bind does what Server.Start does before listening.
+	Bind() error
+	ServeHTTP(w http.ResponseWriter, r *http.Request)
+	// Look returns method and path of element j of slice s as the caller reads them now.
+	Look(s, j int) (string, string)
+}
+
+// MountStats classifies a program for the vacuity counters.
+type MountStats struct {
+	Shared    bool // some slice is mounted more than once
+	Rejecting bool // the specification rejects one of the registrations
+}
+
+func segsText(segs any) string {
+	var toks []string
+	for _, e := range kit.List(segs) {
+		seg := e.(map[string]any)
+		if kit.Bool(seg["par"]) {
+			toks = append(toks, ":"+kit.Str(seg["s"]))
+		} else {
+			toks = append(toks, kit.Str(seg["s"]))
+		}
+	}
+	return pathText(true, toks)
+}
+
+func safely(f func() error) (err error, pv any) {
+	defer func() { pv = recover() }()
+	return f(), nil
+}
+
+// RunMountCase replays one mount program.
+func RunMountCase(c kit.Case, reqs []Req, pfx string, customNotFound bool, mk func() World) (v kit.Verdict, st MountStats) {
+	v = kit.Verdict{Case: c.Index, OK: true}
+	tc := c.Steps[0]
+	o := &obs{}
+	var nf http.Handler
+	if customNotFound {
+		nf = http.HandlerFunc(func(w http.ResponseWriter, r *http.Request) {
+			o.notFound++
+			w.WriteHeader(http.StatusNotFound)
+		})
+	}
+	w := mk()
+	// the caller's slices; the handler of element j of slice s records the id base[s]+j+1
+	type elem struct {
+		s, j         int
+		method, path string
+	}
+	var elems []elem
+	var base []int
+	for s, se := range kit.List(tc["slices"]) {
+		base = append(base, len(elems))
+		var routes []RouteSpec
+		for j, re := range kit.List(se) {
+			r := re.(map[string]any)
+			id := len(elems) + 1
+			e := elem{s: s, j: j, method: kit.Str(r["m"]), path: segsText(r["p"])}
+			elems = append(elems, e)
+			routes = append(routes, RouteSpec{Method: e.method, Path: e.path, Handler: func(w http.ResponseWriter, r *http.Request) {
+				o.ran = append(o.ran, id)
+				o.vars = append(o.vars, pathvar.Vars(r))
+				w.WriteHeader(http.StatusOK)
+			}})
+		}
+		w.MakeSlice(routes)
+	}
+	name := func(id int) string {
+		e := elems[id-1]
+		return fmt.Sprintf("slice%d[%d] = %s %s", e.s+1, e.j, e.method, e.path)
+	}
+	// what the caller's slices read now, when it is not what the caller wrote (message only)
+	drift := func() string {
+		var d []string
+		for id, e := range elems {
+			if m, p := w.Look(e.s, e.j); m != e.method || p != e.path {
+				d = append(d, fmt.Sprintf("%s now reads %s %s", name(id+1), m, p))
+			}
+		}
+		if d == nil {
+			return ""
+		}
+		return " [the caller's slices were modified: " + strings.Join(d, "; ") + "]"
+	}
+	regs := kit.List(tc["regs"])
+	var table []string
+	owner := make([]int, len(regs)+1)
+	for i, e := range regs {
+		reg := e.(map[string]any)
+		table = append(table, kit.Str(reg["m"])+" "+patternText(reg))
+		owner[i+1] = base[kit.Num(reg["s"])-1] + kit.Num(reg["j"])
+		st.Rejecting = st.Rejecting || kit.Bool(reg["err"])
+	}
+	var prog []string
+	mounts := map[int]int{}
+	ops := kit.List(tc["ops"])
+	for _, e := range ops {
+		op := e.(map[string]any)
+		mounts[kit.Num(op["s"])]++
+		var gs []string
+		for _, g := range kit.List(op["pre"]) {
+			gs = append(gs, fmt.Sprintf("WithPrefix(%q)", segsText(g)))
+		}
+		if kit.Str(op["k"]) == "routes" {
+			prog = append(prog, fmt.Sprintf("AddRoutes(slice%d%s)", kit.Num(op["s"]), strings.Join(append([]string{""}, gs...), ", ")))
+		} else {
+			prog = append(prog, fmt.Sprintf("AddRoute(slice%d[%d]%s)", kit.Num(op["s"]), kit.Num(op["j"])-1, strings.Join(append([]string{""}, gs...), ", ")))
+		}
+	}
+	for _, n := range mounts {
+		st.Shared = st.Shared || n > 1
+	}
+	rounds := kit.Num(tc["rounds"])
+	if rounds < 1 {
+		rounds = 1
+	}
+	for round := 1; round <= rounds; round++ {
+		rp := pfx
+		if round > 1 {
+			rp = pfx + "reuse:"
+		}
+		fail := func(step int, key, msg string) kit.Verdict {
+			v.OK, v.Step, v.Key = false, step, rp+key
+			v.Msg = fmt.Sprintf("server %d of %d built from the same slices, program %v: %s%s", round, rounds, prog, msg, drift())
+			return v
+		}
+		if err := w.NewServer(nf); err != nil {
+			return kit.Verdict{Case: c.Index, Infra: true, Msg: "cannot build the server: " + err.Error()}, st
+		}
+		for i, e := range ops {
+			op := e.(map[string]any)
+			var groups []string
+			for _, g := range kit.List(op["pre"]) {
+				groups = append(groups, segsText(g))
+			}
+			_, pv := safely(func() error {
+				if kit.Str(op["k"]) == "routes" {
+					w.AddRoutes(kit.Num(op["s"])-1, groups)
+				} else {
+					w.AddRoute(kit.Num(op["s"])-1, kit.Num(op["j"])-1, groups)
+				}
+				return nil
+			})
+			if pv != nil {
+				return fail(i, "panic:mount", fmt.Sprintf("%s panicked: %v", prog[i], pv)), st
+			}
+			v.Steps++
+		}
+		err, pv := safely(w.Bind)
+		if pv != nil {
+			return fail(len(ops), "panic:bind", fmt.Sprintf("binding %v panicked: %v", table, pv)), st
+		}
+		v.Steps++
+		if (err != nil) != st.Rejecting {
+			if st.Rejecting {
+				return fail(len(ops), "handle:missing-error:bind", fmt.Sprintf("binding succeeded; the specification's table %v holds a rejected registration", table)), st
+			}
+			return fail(len(ops), "handle:spurious-error", fmt.Sprintf("binding returned %v; the specification accepts every route of %v", err, table)), st
+		}
+		if st.Rejecting {
+			continue // binding stops at the first rejected route: nothing further is promised
+		}
+		r := checkRequests(v, rp, w, reqs, tc["res"], len(ops)+1, table, o, customNotFound,
+			func(reg int) int { return owner[reg] }, name)
+		if r.Infra {
+			return r, st
+		}
+		if !r.OK {
+			return fail(r.Step, strings.TrimPrefix(r.Key, rp), r.Msg), st
+		}
+		v.Steps = r.Steps
+	}
+	return v, st
+}
+
+// DriveMounts is the main loop of the mount driver.
+func DriveMounts(pfx string, mk func() World) {
+	rep, err := kit.NewReporter(kit.Env("VERIF_OUT", ""))
+	if err != nil {
+		panic(err)
+	}
+	defer rep.Close()
+	for _, m := range strings.Split(kit.Env("VERIF_METHODS", "GET,POST"), ",") {
+		Supported[m] = true
+	}
+	shard, shards := kit.EnvInt("VERIF_SHARD", 0), kit.EnvInt("VERIF_SHARDS", 1)
+	seed := int(kit.Seed())
+	both := kit.EnvInt("VERIF_BOTH", 0) == 1
+	var reqs []Req
+	err = Stream(kit.Env("VERIF_CASES", ""), shard, shards, func(h kit.M) { reqs = Requests(h) }, func(c kit.Case) {
+		if c.Steps[0]["ops"] == nil {
+			rep.Put(kit.Verdict{Case: c.Index, Infra: true, Msg: "not a mount program"})
+			return
+		}
+		custom := (c.Index/shards+seed)%2 == 0
+		if both {
+			if v, _ := RunMountCase(c, reqs, pfx, !custom, mk); !v.OK {
+				rep.Put(v)
+				return
+			}
+		}
+		v, st := RunMountCase(c, reqs, pfx, custom, mk)
+		if st.Shared && !st.Rejecting {
+			rep.Count("shared_slice_programs", 1)
+		}
+		if st.Rejecting {
+			rep.Count("rejecting_programs", 1)
+		} else {
+			rep.Count("served_programs", 1)
+		}
+		rep.Put(v)
 	})
 	if err != nil {
 		rep.Put(kit.Verdict{Infra: true, Msg: err.Error()})
